@@ -17,7 +17,7 @@ Gen == GenDepth > 0
 Caps == 0..MaxCap
 BigN == {HALF, HALF + 1, MAXS - 1, MAXS}
 ArgN == (0..(MaxCap + 1)) \cup BigN
-BigC == {HALF + 1, MAXS}
+BigC == {HALF, HALF + 1, MAXS}
 LenCap == IF Gen THEN 24 ELSE MaxCap
 DSlot(c) == {0} \cup (CurIds \ {c})
 Max(a, b) == IF a >= b THEN a ELSE b
